@@ -8,7 +8,7 @@ import itertools
 import numpy as np
 from hypothesis import strategies as st
 
-from vlib.core import SubCheck, Violation, require, close, maxdiff, A, must
+from vlib.core import SubCheck, Violation, require, close, maxdiff, A, must, refuses
 
 PROPERTY = "C20"
 RULE = ("operators: exhaustive enumeration of (dimension 1D/2D, n, bc in zero/periodic/neumann/backward/none, "
@@ -350,7 +350,47 @@ def run_lc(c, rec):
             got=got, ref=ref)
 
 
+# ----------------------------------------------------------------------------- non-square 2-D geometries
+
+@st.composite
+def nonsquare_cases(draw, tier="quick"):
+    a, b = draw(st.sampled_from([(2, 8), (8, 2), (3, 12), (4, 9), (2, 3), (3, 5), (1, 4), (4, 1), (2, 18)]))
+    return {"fam": draw(st.sampled_from(["LMRF", "CMRF", "GMRF"])), "shape": [a, b], "bc": draw(st.sampled_from(BCS2)),
+            "level": float(10 ** draw(st.floats(-1, 1))), "x": draw(st.lists(st.floats(-2, 2, allow_nan=False, width=64), min_size=a * b, max_size=a * b))}
+
+
+def run_nonsquare(c, rec):
+    """the 2-D difference operators exist for square grids only: a Markov random field prior on an a x b geometry (a != b) must
+    either be the documented density of the differences along both image axes or be refused - in particular when a*b happens
+    to be a perfect square"""
+    import cuqi
+    a, b = c["shape"]
+    tags = {"fam": c["fam"], "perfect_square": int(np.sqrt(a * b)) ** 2 == a * b, "bc": c["bc"]}
+    if rec.classify(tags, True):
+        return
+    cls = getattr(cuqi.distribution, c["fam"])
+    x = A(c["x"])
+    refused, val = refuses(lambda: float(cls(0.0, c["level"], bc_type=c["bc"], geometry=cuqi.geometry.Image2D((a, b))).logpdf(x)))
+    if refused:
+        rec.count("refused")
+        return
+    # a value was returned: it must be the density on the a x b grid (differences along each axis with the stated bc)
+    X = x.reshape(a, b)
+    D1, D2 = ref_D(a, c["bc"], 1), ref_D(b, c["bc"], 1)
+    d = np.concatenate([(D1 @ X).ravel(), (X @ D2.T).ravel()])
+    if c["fam"] == "LMRF":
+        ref = -len(d) * np.log(2 * c["level"]) - np.sum(np.abs(d)) / c["level"]
+    elif c["fam"] == "CMRF":
+        ref = float(np.sum(np.log(c["level"] / np.pi) - np.log(d ** 2 + c["level"] ** 2)))
+    else:
+        raise Violation(f"GMRF on a non-square {a}x{b} geometry returned a log-density ({val}) although its difference operators are defined for square grids only")
+    require(close(val, ref, 1e-9), f"{c['fam']} on a non-square {a}x{b} geometry is not the density of the differences along the two image axes "
+            "(was the field treated as a square grid?)", got=val, want=ref)
+
+
 SUBCHECKS = [
+    SubCheck("C20/nonsquare_2d", run_nonsquare, strategy=nonsquare_cases, n={"quick": 200, "thorough": 2000}, shards={"quick": 2, "thorough": 4},
+             doc="MRF priors on non-square 2-D geometries are refused or are the density on that grid"),
     SubCheck("C20/stencils", run_stencil, enum=enum_ops, exhaustive=True, shards={"quick": 4, "thorough": 16},
              doc="difference operators equal the reference stencils, 2-D = Kronecker stacking"),
     SubCheck("C20/precision", run_prec, enum=enum_prec, exhaustive=True, shards={"quick": 4, "thorough": 16},
